@@ -111,8 +111,8 @@ def _wrun(args):
             continue
         faulthandler.cancel_dump_traceback_later()
         if prop in HISTORY_PROPS:
-            _RECENT.append(case)
-            del _RECENT[:-25]
+            _RECENT.append(idx)     # (regenerated from its seed on replay)
+            del _RECENT[:-400]
         out["runs"] += 1
         out["events"] += res.get("events", 0)
         out["sim_time"] += res.get("sim_time", 0.0)
@@ -239,7 +239,8 @@ def write_replay(prop: str, tier: str, base_seed: int, v: dict,
         "how": f"/venv/bin/python -m sim.run replay replays/{name}",
     }
     if prelude:
-        # the cases the same process had run before, in order
+        # the run indices the same process had executed before, in order
+        # (each case is regenerated from base_seed and its index)
         doc["prelude"] = prelude
     with open(path, "w") as f:
         json.dump(doc, f, indent=1, sort_keys=True, default=str)
@@ -252,9 +253,10 @@ def replay_file(path: str, quiet: bool = False) -> tuple[int, dict]:
     prop = doc["property"]
     chk = load_check(prop)
     chk.warmup()
-    for c_ in doc.get("prelude") or ():
+    for i_ in doc.get("prelude") or ():
         try:
-            chk.run(c_)
+            chk.run(chk.gen(Choices(run_seed(doc["base_seed"], prop, i_)),
+                            doc.get("tier", "quick")))
         except Exception:       # noqa: BLE001 - only their traces matter
             pass
     res = chk.run(doc["case"])
@@ -398,6 +400,23 @@ def cmd_check(args) -> int:
         doc["self_replay_reproduced"] = bool(code)
         with open(os.path.join(VERIF_ROOT, path), "w") as f:
             json.dump(doc, f, indent=1, sort_keys=True, default=str)
+        if not code and prop in HISTORY_PROPS:
+            # The minimiser ran in a process whose library-side state the
+            # earlier steps of this very case may have changed: does the
+            # case as generated reproduce?
+            v_ = dict(v, case=chk.gen(Choices(v["seed"]), tier))
+            path = write_replay(prop, tier, base_seed, v_, None)
+            code, dig = _replay_fresh(path)
+            with open(os.path.join(VERIF_ROOT, path)) as f:
+                doc = json.load(f)
+            doc["digest"] = dig
+            doc["self_replay_reproduced"] = bool(code)
+            doc["note"] = "not minimised: the reduced case did not " \
+                          "reproduce on its own"
+            with open(os.path.join(VERIF_ROOT, path), "w") as f:
+                json.dump(doc, f, indent=1, sort_keys=True, default=str)
+            if code:
+                v = v_
         if not code and v.get("prelude"):
             # not on its own - after what the process had done before?
             path = write_replay(prop, tier, base_seed, v, None, v["prelude"])
